@@ -89,6 +89,7 @@ class Linker:
         self.arch = arch
         self.extra_symbols = None
         self.reporter = reporter
+        self.section_copies = []
 
     def link(
         self,
@@ -155,6 +156,7 @@ class Linker:
 
             self.do_relaxations()
             self.do_relocations()
+            self.update_section_copies()
 
         if self.reporter:
             self.report_link_result()
@@ -308,6 +310,9 @@ class Linker:
         # Names of the sections that are already part of an image:
         placed = set()
 
+        # SECTIONDATA copies, to be refreshed once relocations are applied:
+        self.section_copies = []
+
         # Create sections with address:
         for mem in layout.memories:
             image = Image(mem.name, mem.location)
@@ -350,6 +355,7 @@ class Linker:
                     )
 
                     section.add_data(src_section.data)
+                    self.section_copies.append((section, src_section))
 
                     current_address += section.size
                     image.add_section(section)
@@ -382,6 +388,15 @@ class Linker:
                     f"Memory exceeds size ({image.size} > {mem.size})"
                 )
             self.dst.add_image(image)
+
+    def update_section_copies(self):
+        """Give the SECTIONDATA copies the final contents of their sections.
+
+        The copies are taken during layout, before relaxation and relocation
+        have modified the section contents.
+        """
+        for section, src_section in self.section_copies:
+            section.data[:] = src_section.data
 
     def get_symbol_value(self, symbol_id):
         """Get value of a symbol from object or fallback"""
